@@ -25,11 +25,15 @@ pub struct Case {
     /// depth counters, capacity computations)
     #[serde(default)]
     pub chain: u8,
+    /// rare "large arena" cases: this many nodes are added at pseudo-random free slots before the build ops run
+    /// (traversals that return more than 1024 items)
+    #[serde(default)]
+    pub bulk: u16,
 }
 
 /// Replays build ops on a tree with arbitrary node values; errors and documented panics are ignored
 /// (C12 judges them).  Both value types see the same slab behaviour, hence the same indices.
-fn build<N, const K: usize>(ops: &[Op], chain: u8, mk: &dyn Fn(i64) -> N) -> (Tree<N, K>, Model) {
+fn build<N, const K: usize>(ops: &[Op], chain: u8, bulk: u16, mk: &dyn Fn(i64) -> N) -> (Tree<N, K>, Model) {
     let mut t = Tree::<N, K>::new();
     let root = t.add_root(mk(100));
     let mut m = Model::new(K, root, 100);
@@ -43,6 +47,9 @@ fn build<N, const K: usize>(ops: &[Op], chain: u8, mk: &dyn Fn(i64) -> N) -> (Tr
             }
             _ => break,
         }
+    }
+    if bulk > 0 {
+        crate::treemodel::bulk_grow(&mut t, &mut m, bulk as usize, bulk as u64, mk);
     }
     for op in ops {
         match op {
@@ -286,7 +293,7 @@ fn metrics<const K: usize>(t: &Tree<i64, K>, m: &Model) -> Result<(), String> {
 }
 
 fn run_k<const K: usize>(case: &Case, ctx: &mut Ctx) -> CaseResult {
-    let (t, m) = build::<i64, K>(&case.build, case.chain, &|v| v);
+    let (t, m) = build::<i64, K>(&case.build, case.chain, case.bulk, &|v| v);
     if let Err(e) = compare(&t, &m) {
         // shape construction itself went wrong: that is C12's business
         ctx.class("shape_mismatch_skipped");
@@ -294,7 +301,9 @@ fn run_k<const K: usize>(case: &Case, ctx: &mut Ctx) -> CaseResult {
         return Ok(());
     }
     let live = m.live();
-    let start = live[pick(case.start, live.len())];
+    // large arenas: start at one of the first nodes so that one traversal returns more than 1024 items
+    ctx.class_if(case.bulk > 0, "large_arena");
+    let start = if case.bulk > 0 { live[pick(case.start, live.len().min(3))] } else { live[pick(case.start, live.len())] };
     let below_root = start != m.root;
     ctx.class_if(below_root, "start_below_root");
     ctx.class_if(live.len() >= 6, "ge6_nodes");
@@ -342,7 +351,7 @@ fn run_k<const K: usize>(case: &Case, ctx: &mut Ctx) -> CaseResult {
 }
 
 fn polyhedra_script(case: &Case, m: &Model, ctx: &mut Ctx) -> Result<(), String> {
-    let (t, m2) = build::<AffContent, 2>(&case.build, case.chain, &|v| {
+    let (t, m2) = build::<AffContent, 2>(&case.build, case.chain, case.bulk, &|v| {
         AffContent::new(AffFunc::from_mats(ndarray::arr2(&[[1.0]]), ndarray::arr1(&[v as f64])))
     });
     if m2 != *m || shape_of(&t).iter().map(|x| x.0).collect::<Vec<_>>() != m.live() {
@@ -413,7 +422,7 @@ impl Property for C13 {
         "C13"
     }
     fn rule(&self) -> String {
-        "tree shapes produced by generated add/remove/merge histories (K in {2,3}; holes and reused arena indices) x start node (any live node) x traversal kind (DfsPre, DfsEdge, Bfs, PolyhedraIter) x script over {next, skip_subtree} (first step is next; repeated skips included); item streams, depth, n_remaining, remaining-count after every step and size_hint bracketing are compared with a reference traversal computed from raw child arrays; index-order iterators, num_nodes, num_terminals, depth, depth_stats, dfs_iter, dfs_edge_iter compared with direct computation. Non-trivial = tree has >= 6 nodes AND (start below the root OR a skip that removed a non-empty set); distinct = distinct serialised cases".into()
+        "tree shapes produced by generated add/remove/merge histories (K in {2,3}; holes and reused arena indices) x start node (any live node) x traversal kind (DfsPre, DfsEdge, Bfs, PolyhedraIter) x script over {next, skip_subtree} (first step is next; repeated skips included); item streams, depth, n_remaining, remaining-count after every step and size_hint bracketing are compared with a reference traversal computed from raw child arrays; index-order iterators, num_nodes, num_terminals, depth, depth_stats, dfs_iter, dfs_edge_iter compared with direct computation; rare regimes: a chain of up to 120 nodes below the root, and large arenas (1100-3000 nodes, traversal started near the root so that it returns more than 1024 items). Non-trivial = tree has >= 6 nodes AND (start below the root OR a skip that removed a non-empty set); distinct = distinct serialised cases".into()
     }
     fn assumptions(&self) -> Vec<String> {
         vec![
@@ -436,7 +445,8 @@ impl Property for C13 {
             proptest::collection::vec(prop_oneof![3 => Just(true), 1 => Just(false)], 0..tier.pick(24, 60)),
             prop_oneof![30 => Just(0u8), 1 => 1u8..=40, 1 => 60u8..=120],
         )
-            .prop_map(|(k, build, start, kind, script, chain)| Case { k, build, start, kind, script, chain })
+            .prop_flat_map(|(k, build, start, kind, script, chain)| (Just((k, build, start, kind, script, chain)), prop_oneof![299 => Just(0u16), 1 => 1100u16..3000]))
+            .prop_map(|((k, build, start, kind, script, chain), bulk)| Case { k, build, start, kind, script, chain, bulk })
             .boxed()
     }
     fn run(&self, case: &Case, ctx: &mut Ctx) -> CaseResult {
